@@ -5,8 +5,9 @@ known-findings files. Run only on a tree whose violations have all been classifi
 import json, re, subprocess, sys
 pid, tier = sys.argv[1], sys.argv[2]
 out = subprocess.run(["./check", pid, "--tier", tier], cwd="/verif", capture_output=True, text=True, errors="replace").stdout
-if "VIOLATION" in out:
-    sys.exit("the run reports unlisted violations: classify them first")
+bad = [l for l in out.splitlines() if l.startswith("  key=") and ".more-cases-than-recorded" not in l.split()[0]]
+if bad:
+    sys.exit("the run reports unlisted violations: classify them first\n" + "\n".join(bad[:3]))
 if "exhaustive=true" not in out:
     sys.exit("the run was cut by its deadline: counts would be too low")
 counts = {}
